@@ -10,6 +10,7 @@ t = time.time()
 for d in ("evidence", "replays", ".cache"):
     os.makedirs(os.path.join(HERE, d), exist_ok=True)
 print("dag<=4", len(world.dag_shapes(4)), "dag<=5", len(world.dag_shapes(5)))
+print("dig(5,6) without self-loops", len(world.dig_shapes(5, 6, selfloops=False)))
 print("dig(4,6)", len(world.dig_shapes(4, 6)), "dig(4,7)", len(world.dig_shapes(4, 7)), "dig(4,8)", len(world.dig_shapes(4, 8)))
 common.bind()
 import flowpaths, highspy, networkx
